@@ -516,6 +516,8 @@ def run(ctx) -> None:
         path_cases = [
             ("top.py", True), ("a/b/c/deep.py", True), ("./pk/dot.py", True), ("pk2//dbl.py", True), ("ABS/abs/in.py", True),
             ("OUT/x/out.py", True), ("pk3/trail.py/", True),
+            # the target folder (or part of it) exists already, without __init__.py files
+            ("PRE/plugins/perf/calls.py", True), ("PRE/half/way/there/deep.py", True),
             ("noext", False), ("a/x.txt", False), ("x.py.bak", False), (".py", False), ("a/.py", False), ("x.PY", False), ("x.py.", False), ("dir.py/x", False),
         ]
         jobs_path, meta_path = [], []
@@ -523,6 +525,10 @@ def run(ctx) -> None:
             cwd = d / f"p{k}"
             cwd.mkdir()
             (cwd / "corpus.py").write_text(CORPUS)
+            if p.startswith("PRE/"):
+                p = p[4:]
+                pre = (cwd / p).parent if "half" not in p else (cwd / "half" / "way")
+                pre.mkdir(parents=True)
             file = p.replace("ABS/", str(cwd) + "/").replace("OUT/", str(outside) + "/")
             jobs_path.append({"cwd": str(cwd), "raw": ["WhileStmt", "IfStmt"], "file": file, "prefix": "PTH", "stub": "fzf"})
             meta_path.append({"label": p, "ok": ok, "cwd": cwd, "file": file})
